@@ -19,6 +19,7 @@ transferring spent fuel assemblies from the core to the SFP.
 """
 import itertools
 
+from armi.reactor import grids
 from armi.reactor.excoreStructure import ExcoreStructure
 
 
@@ -51,6 +52,11 @@ class SpentFuelPool(ExcoreStructure):
             raise ValueError(
                 f"An assembly cannot be added to {self} using a spatial locator from another grid."
             )
+
+        if self.spatialGrid is None:
+            # the default pool (none declared in the blueprints) is built without a grid
+            self.spatialGrid = grids.CartesianGrid.fromRectangle(50.0, 50.0)
+            self.spatialGrid.armiObject = self
 
         if self.numColumns is None:
             self._updateNumberOfColumns()
